@@ -20,6 +20,11 @@
 (* (the code as found); FALSE = an echo never writes st (repaired design). *)
 (* SealOnClose: TRUE = processing the close event seals the state word so  *)
 (* that no later commit CAS can succeed (repaired design); FALSE = as found*)
+(* LostGuard: TRUE = CommitSelectLost announces itself in pendLost before  *)
+(* its CAS, the slost echo retires the announcement, and a sacc echo that  *)
+(* is dequeued while an announcement is outstanding is stale: it reacts    *)
+(* and notifies but does not store (the code since cbc5287); FALSE = as    *)
+(* found (finding F1: the stale sacc echo re-stores Selected for good).    *)
 (***************************************************************************)
 EXTENDS Integers, Sequences, FiniteSets, TLC
 
@@ -30,12 +35,13 @@ CONSTANTS MaxGen,        \* TCP generations (successful TCP-ups) in one Open..Cl
           NotifyCap,     \* capacity of the notification buffer
           QCap,          \* events-queue bound (the real channel blocks at 16; never reached here)
           MaxStale,      \* late disconnect injections by goroutines of the previous generation (0: transports guard them)
-          EchoStores, SealOnClose
+          EchoStores, SealOnClose, LostGuard
 
 VARIABLES st,            \* the atomic state word: "NC" | "NS" | "S" | "X" (sealed, reads as NC)
           q,             \* events channel: sequence of event names
           lastReacted, closed,          \* run()-owned
-          sup,           \* <<"idle", "-", "-">> | <<"loaded", ev, cur>>
+          sup,           \* <<"idle", "-", "-", FALSE>> | <<"loaded", ev, cur, staleSelect>>
+          pendLost,      \* CommitSelectLost commits whose slost echo has not been dequeued yet (0 unless LostGuard)
           notify, dropped,              \* drop-oldest buffer, count of coalesced notifications
           cm,            \* commit in flight: "none" | echo event name (CAS done, enqueue pending)
           gen, live, startPending,      \* generation counter; TCP of this generation up; a transport Start in flight
@@ -47,12 +53,13 @@ VARIABLES st,            \* the atomic state word: "NC" | "NS" | "S" | "X" (seal
           act,           \* name of the last action taken (hidden by VIEW in exhaustive runs; drives the replayer)
           armSel         \* armSel[id] = a Selected commit happened since T7 timer id was armed
 
-vars == <<st, q, lastReacted, closed, sup, notify, dropped, cm, gen, live, startPending,
+vars == <<st, q, lastReacted, closed, sup, pendLost, notify, dropped, cm, gen, live, startPending,
           commits, discs, staleDisc, arms, nextArm, closeReq, stopped, lastD, armSel, act>>
 
-View == <<st, q, lastReacted, closed, sup, notify, dropped, cm, gen, live, startPending,
+View == <<st, q, lastReacted, closed, sup, pendLost, notify, dropped, cm, gen, live, startPending,
           commits, discs, staleDisc, arms, nextArm, closeReq, stopped, lastD, armSel>>
 
+Idle == <<"idle", "-", "-", FALSE>>
 States == {"NC", "NS", "S"}
 Echoes == {"tup", "sacc", "slost"}
 Read(s) == IF s = "X" THEN "NC" ELSE s                  \* what State() returns
@@ -69,7 +76,7 @@ Table(cur, ev) ==
       [] OTHER -> <<cur, FALSE>>
 
 Init ==
-    /\ st = "NC" /\ q = <<>> /\ lastReacted = "NC" /\ closed = FALSE /\ sup = <<"idle", "-", "-">>
+    /\ st = "NC" /\ q = <<>> /\ lastReacted = "NC" /\ closed = FALSE /\ sup = Idle /\ pendLost = 0
     /\ notify = <<>> /\ dropped = 0 /\ cm = "none"
     /\ gen = 0 /\ live = FALSE /\ startPending = TRUE
     /\ commits = 0 /\ discs = 0 /\ staleDisc = 0 /\ arms = {} /\ nextArm = 1
@@ -98,7 +105,7 @@ CommitBeginConn ==
     /\ IF st = "NC"
        THEN st' = "NS" /\ cm' = "tup" /\ gen' = gen + 1
        ELSE UNCHANGED <<st, cm, gen>>
-    /\ UNCHANGED <<q, lastReacted, closed, sup, notify, dropped, live, commits, discs, staleDisc, arms, nextArm,
+    /\ UNCHANGED <<q, lastReacted, closed, sup, pendLost, notify, dropped, live, commits, discs, staleDisc, arms, nextArm,
                    armSel, closeReq, stopped, lastD>>
 
 (* receive goroutine: Select.req (passive) or Select.rsp status 0 (active) -> CommitSelected *)
@@ -107,7 +114,7 @@ CommitBeginSel ==
     /\ live /\ cm = "none" /\ commits < MaxCommits
     /\ commits' = commits + 1
     /\ IF st = "NS" THEN st' = "S" /\ cm' = "sacc" /\ MarkSelected ELSE UNCHANGED <<st, cm, armSel>>
-    /\ UNCHANGED <<q, lastReacted, closed, sup, notify, dropped, gen, live, startPending, discs, staleDisc,
+    /\ UNCHANGED <<q, lastReacted, closed, sup, pendLost, notify, dropped, gen, live, startPending, discs, staleDisc,
                    arms, nextArm, closeReq, stopped, lastD>>
 
 (* receive goroutine: Deselect.req while Selected -> CommitSelectLost, then T7 re-armed *)
@@ -115,7 +122,9 @@ CommitBeginLost ==
     /\ act' = "CommitBeginLost"
     /\ live /\ cm = "none" /\ commits < MaxCommits
     /\ commits' = commits + 1
-    /\ IF st = "S" THEN st' = "NS" /\ cm' = "slost" ELSE UNCHANGED <<st, cm>>
+    \* (the announcement is made before the CAS and withdrawn when the CAS loses: net effect of the call)
+    /\ IF st = "S" THEN st' = "NS" /\ cm' = "slost" /\ pendLost' = (IF LostGuard THEN pendLost + 1 ELSE pendLost)
+                   ELSE UNCHANGED <<st, cm, pendLost>>
     /\ UNCHANGED <<q, lastReacted, closed, sup, notify, dropped, gen, live, startPending, discs, staleDisc,
                    arms, nextArm, armSel, closeReq, stopped, lastD>>
 
@@ -129,9 +138,11 @@ CommitFinish ==
     /\ IF cm = "tup"
        THEN /\ live' = TRUE /\ commits' = 0 /\ discs' = 0
             /\ arms' = {1} /\ nextArm' = 2 /\ armSel' = [i \in 1..MaxArms |-> FALSE]
-       ELSE IF cm = "slost" THEN ArmOrSkip /\ UNCHANGED <<live, commits, discs>>
+       \* (a receive goroutine that finishes its Deselect after the generation has ended arms on the cancelled
+       \*  generation context, and Stop joins the T7 goroutines before the next Start: nothing that can fire later)
+       ELSE IF cm = "slost" /\ live THEN ArmOrSkip /\ UNCHANGED <<live, commits, discs>>
        ELSE UNCHANGED <<live, commits, discs, arms, nextArm, armSel>>
-    /\ UNCHANGED <<st, lastReacted, closed, sup, notify, dropped, gen, startPending,
+    /\ UNCHANGED <<st, lastReacted, closed, sup, pendLost, notify, dropped, gen, startPending,
                    staleDisc, closeReq, stopped, lastD>>
 
 (* ------------------------------------------------------------------ asynchronous injections *)
@@ -139,7 +150,7 @@ InjectDisc ==
     /\ act' = "InjectDisc"
     /\ live /\ discs < MaxDisc /\ Len(q) < QCap
     /\ discs' = discs + 1 /\ Enq("disc")
-    /\ UNCHANGED <<st, lastReacted, closed, sup, notify, dropped, cm, gen, live, startPending, commits,
+    /\ UNCHANGED <<st, lastReacted, closed, sup, pendLost, notify, dropped, cm, gen, live, startPending, commits,
                    staleDisc, arms, nextArm, closeReq, stopped, lastD, armSel>>
 
 (* a goroutine of the PREVIOUS generation reports its dead socket late *)
@@ -147,7 +158,7 @@ InjectStaleDisc ==
     /\ act' = "InjectStaleDisc"
     /\ staleDisc > 0 /\ Len(q) < QCap
     /\ staleDisc' = staleDisc - 1 /\ Enq("disc")
-    /\ UNCHANGED <<st, lastReacted, closed, sup, notify, dropped, cm, gen, live, startPending, commits,
+    /\ UNCHANGED <<st, lastReacted, closed, sup, pendLost, notify, dropped, cm, gen, live, startPending, commits,
                    discs, arms, nextArm, closeReq, stopped, lastD, armSel>>
 
 (* a T7 timer of this generation fires; cancellation is best effort, so a timer whose dwell was
@@ -157,31 +168,34 @@ InjectT7(a) ==
     /\ a \in arms /\ Len(q) < QCap
     /\ arms' = arms \ {a}
     /\ Enq(T7Name(a))
-    /\ UNCHANGED <<st, lastReacted, closed, sup, notify, dropped, cm, gen, live, startPending, commits,
+    /\ UNCHANGED <<st, lastReacted, closed, sup, pendLost, notify, dropped, cm, gen, live, startPending, commits,
                    discs, staleDisc, nextArm, closeReq, stopped, lastD, armSel>>
 
 RequestClose ==
     /\ act' = "RequestClose"
     /\ ~closeReq /\ Len(q) < QCap
     /\ closeReq' = TRUE /\ Enq("close")
-    /\ UNCHANGED <<st, lastReacted, closed, sup, notify, dropped, cm, gen, live, startPending, commits,
+    /\ UNCHANGED <<st, lastReacted, closed, sup, pendLost, notify, dropped, cm, gen, live, startPending, commits,
                    discs, staleDisc, arms, nextArm, stopped, lastD, armSel>>
 
 (* Close returns once the supervisor has processed the close event and both run() and the notifier
    (which first drains what is buffered) have been joined *)
 CloseReturn ==
     /\ act' = "CloseReturn"
-    /\ closeReq /\ closed /\ ~stopped /\ sup = <<"idle", "-", "-">> /\ notify = <<>>
+    /\ closeReq /\ closed /\ ~stopped /\ sup = Idle /\ notify = <<>>
     /\ stopped' = TRUE
-    /\ UNCHANGED <<st, q, lastReacted, closed, sup, notify, dropped, cm, gen, live, startPending, commits,
+    /\ UNCHANGED <<st, q, lastReacted, closed, sup, pendLost, notify, dropped, cm, gen, live, startPending, commits,
                    discs, staleDisc, arms, nextArm, closeReq, lastD, armSel>>
 
 (* ------------------------------------------------------------------ supervisor run() *)
 SupBegin ==
     /\ act' = "SupBegin"
-    /\ ~stopped /\ sup = <<"idle", "-", "-">> /\ q /= <<>>
+    /\ ~stopped /\ sup = Idle /\ q /= <<>>
     /\ q' = Tail(q)
-    /\ sup' = IF closed THEN <<"idle", "-", "-">> ELSE <<"loaded", Head(q), st>>      \* closed latch: event ignored
+    \* closed latch: event ignored.  Otherwise: a slost echo retires one announcement, a sacc echo that
+    \* sees an outstanding announcement is marked stale; then the state word is loaded
+    /\ sup' = IF closed THEN Idle ELSE <<"loaded", Head(q), st, Head(q) = "sacc" /\ pendLost > 0>>
+    /\ pendLost' = IF ~closed /\ Head(q) = "slost" /\ pendLost > 0 THEN pendLost - 1 ELSE pendLost
     /\ UNCHANGED <<st, lastReacted, closed, notify, dropped, cm, gen, live, startPending, commits, discs,
                    staleDisc, arms, nextArm, closeReq, stopped, lastD, armSel>>
 
@@ -202,7 +216,7 @@ SupFinish ==
            abandonLost == b = "slost" /\ cur = "S"
            t == Table(cur, b) next == t[1] legal == t[2] /\ ~abandonLost
            isEcho == b \in Echoes
-           wantStore == legal /\ next /= cur /\ (EchoStores \/ ~isEcho)
+           wantStore == legal /\ next /= cur /\ (EchoStores \/ ~isEcho) /\ ~(LostGuard /\ sup[4])
            casOK == st = sup[3]                       \* T7: CAS(cur -> next)
            abandonT7 == b = "t7" /\ wantStore /\ ~casOK
            doStore == wantStore /\ ~abandonT7
@@ -215,15 +229,15 @@ SupFinish ==
           /\ IF legal /\ ~abandonT7 /\ next = "NC" /\ live
              THEN EndGeneration
              ELSE UNCHANGED <<live, arms, startPending, staleDisc>>
-    /\ sup' = <<"idle", "-", "-">>
-    /\ UNCHANGED <<q, cm, gen, commits, discs, nextArm, closeReq, stopped, lastD, armSel>>
+    /\ sup' = Idle
+    /\ UNCHANGED <<q, pendLost, cm, gen, commits, discs, nextArm, closeReq, stopped, lastD, armSel>>
 
 NotifierTake ==
     /\ act' = "NotifierTake"
     /\ notify /= <<>> /\ ~stopped
     /\ lastD' = <<Head(notify)[1], Head(notify)[2], dropped>>
     /\ notify' = Tail(notify)
-    /\ UNCHANGED <<st, q, lastReacted, closed, sup, dropped, cm, gen, live, startPending, commits, discs,
+    /\ UNCHANGED <<st, q, lastReacted, closed, sup, pendLost, dropped, cm, gen, live, startPending, commits, discs,
                    staleDisc, arms, nextArm, closeReq, stopped, armSel>>
 
 Next == \/ CommitBeginConn \/ CommitBeginSel \/ CommitBeginLost \/ CommitFinish
